@@ -104,6 +104,8 @@ HopStripped   == Done => \A b \in bs : C_ReqHop(X, b) /\ C_ReqE2E(X, b)
 HostRule      == Done => \A b \in bs : C_Host(X, b)
 StatusKept    == Done /\ C_Reach(X) /\ ~ps.short => C_Status(X)
 ContentKept   == Done /\ C_Reach(X) /\ ~ps.short /\ C_Status(X) => C_Content(X) /\ C_RespE2E(X)
+(* a bodiless answer (HEAD, 304) carries the backend's Content-Length (unless the proxy recoded / replaced the body) *)
+BodilessLength == Done /\ C_Reach(X) /\ ~ps.short /\ C_Status(X) => C_RespLen(X)
 WellFramed    == Done /\ ~ps.short => C_Framed(X)
 NoTruncatedSuccess == Done => ~C_Truncated(X)
 (* a hit is answered like the miss before it *)
